@@ -357,7 +357,7 @@ def _plan(tier, prop):
             }
         return {                  # one trace per input (it carries the bytes): fewer, but every token is validated
             "exh": [("full", FULL, 3, 0), ("mid", MID4, 4, 4), ("core", CORE, 5, 5), ("core2", CORE2, 4, 4),
-                    ("crlf", CRLF, 6, 4), ("crlfblock", CRLF_BLOCK, 8, 5)],
+                    ("crlf", CRLF, 6, 4), ("crlfblock", CRLF_BLOCK, 7, 5)],
             "sim": [("sim", FULL, 24, 100), ("simcore", CORE, 16, 200)],
             "stride": 131, "depths": [1, 3, 64],
             "chunk": 400000, "gen_workers": 3, "gen_parallel": 3, "files_small": 40, "files_large": 1,
